@@ -85,15 +85,21 @@ def type_src_plain(name, d, derives):
         vs = []
         for i, v in enumerate(d["vs"]):
             attr = ""
-            if v["skip"]:
+            if v["skip"] and v["src"] == "attr":
+                # both attributes, in either order (the derive accepts one item per #[codec(..)] on a variant, so there is
+                # no joined form)
+                style = (i + len(d["vs"]) + v["val"]) % 2
+                attr = ["#[codec(skip)] #[codec(index = %d)] ", "#[codec(index = %d)] #[codec(skip)] "][style] % v["val"]
+            elif v["skip"]:
                 attr += "#[codec(skip)] "
-            if v["src"] == "attr":
+            elif v["src"] == "attr":
                 attr += "#[codec(index = %d)] " % v["val"]
             shape = "tuple" if len(v["fs"]) == 1 else "named"
             body = fields_src(v["fs"], shape, False) if v["fs"] else ""
             disc = " = %d" % v["val"] if v["src"] == "disc" else ""
             vs.append("\t%sV%d%s%s," % (attr, i, body, disc))
-        return "#[derive(%s)]\npub enum %s {\n%s\n}\n" % (derives, name, "\n".join(vs))
+        rep = "#[repr(u8)]\n" if any(v["src"] == "disc" for v in d["vs"]) and any(v["fs"] for v in d["vs"]) else ""
+        return "#[derive(%s)]\n%spub enum %s {\n%s\n}\n" % (derives, rep, name, "\n".join(vs))
     if d["kind"] == "bigenum":
         first = d.get("first_attr")
         vs = []
@@ -251,7 +257,22 @@ def cmd_layout(path, seed, count, out):
     plain = [l for l in structs if l not in transparent and l not in generic]
     n_s = count * 45 // 100
     chosen = transparent + sample(generic, seed, n_s // 3) + sample(plain, seed, max(0, n_s - n_s // 3 - len(transparent)))
-    chosen += sample(enums, seed, max(0, count - len(chosen)))
+    # corners of the enum family that a uniform sample of ~60 rarely holds: a data-carrying variant whose explicit
+    # discriminant differs from its position; a skipped variant that also has an index attribute (written in one of
+    # three surface forms) ahead of implicit ones; a struct-like variant with an index attribute away from its position
+    def corner(l):
+        vs = kinds[l]["vs"]
+        live = [v for v in vs if not v["skip"]]
+        c = []
+        for i, v in enumerate(vs):
+            pos = len([w for w in vs[:i] if not w["skip"]])
+            if v["fs"] and v["src"] == "disc" and not v["skip"] and v["val"] != pos: c.append("disc")
+            if v["skip"] and v["src"] == "attr" and any(w["src"] == "none" and not w["skip"] for w in vs[i + 1:]): c.append("skipidx%d" % ((i + len(vs) + v["val"]) % 2))
+            if len(v["fs"]) == 2 and v["src"] == "attr" and not v["skip"] and v["val"] != pos: c.append("namedidx")
+        return c
+    for tag in ["disc", "skipidx0", "skipidx1", "namedidx"]:
+        chosen += sample([l for l in enums if tag in corner(l) and l not in chosen], seed, 3)
+    chosen += sample([l for l in enums if l not in chosen], seed, max(0, count - len(chosen)))
     src = []
     src.append("//! GENERATED by bin/gen_programs.py from the definitions TLC enumerated (spec/Gen_Derive.tla).")
     src.append("//! seed=%d count=%d.  Do not edit." % (seed, len(chosen)))
